@@ -1,8 +1,10 @@
 #!/bin/bash
-# usage: tools/seed_batch.sh C05/A C05/B ...   (seeds under /tmp/seed-<prop>/SEED/<x>)
+# usage: [SEED_BASE=/tmp/seed2-] [ROUND=2] tools/seed_batch.sh C05/A C05/B ...
+#   seeds are read from ${SEED_BASE}<prop>/SEED/<x> and kept as seeded/<prop>-${ROUND}<x>
 cd /verif
+BASE=${SEED_BASE:-/tmp/seed-}
 for s in "$@"; do p=${s%/*}; x=${s#*/}; echo "== $s"
- tools/seed_eval.py /tmp/seed-$p/SEED/$x $p --keep $p-$x ${SEED_EVAL_FLAGS} 2>&1 | /venv/bin/python -c "
+ tools/seed_eval.py ${BASE}$p/SEED/$x $p --keep $p-${ROUND}$x ${SEED_EVAL_FLAGS} 2>&1 | /venv/bin/python -c "
 import json,sys
 t=sys.stdin.read(); t=t[t.index('{'):]
 m=json.loads(t); st=m['steps']
